@@ -281,6 +281,6 @@ pub fn run(ctx: &Ctx) {
     ctx.require_class("failing_calls", "failed_insert_after_evictions", 0.05);
     ctx.require_class("failing_calls", "failed_union_partial_transfer", 0.05);
     if ctx.tier == Tier::Thorough && !ctx.failed() {
-        crate::engine::fuzz::run_filter_ops(ctx, 0, 1_500_000);
+        crate::engine::fuzz::run_filter_ops(ctx, 0, 160_000);
     }
 }
